@@ -100,6 +100,13 @@ def witness_search(prop, f, timeout=120):
                 ws.append(json.loads(ln[8:]))
             except Exception:
                 pass
+    if prop in ("C03",):
+        # the optional value types (Json, chrono, time, uuid, decimal, network types, arrays): the second native crate, built with those features
+        from . import kani as _k
+        ns = _k.run_native_search(prop)
+        ws += ns["witnesses"]
+        if ns["note"]:
+            err = (err or "") + " " + ns["note"]
     if rc == 124:
         return ws, "witness search timed out after %ds (possible non-termination on some input)" % timeout
     if rc not in (0, 1):
